@@ -26,7 +26,7 @@ CLAIMED = {
         "text": "Bounded-exhaustive over labelled inputs: quick <=3 object x <=2 species leaves x all 15 arrangements of <=3 families "
                 "(tuples up to family renaming where the menu is closed under renaming, restricted menus in full; inconsistent orders kept) + prescribed root orders; thorough adds <=3x<=3x3 families, "
                 "4x<=3x2 families, 4x<=2x subsequences of abc, each with its coherent cost menu, ext_spfs and base_spfs, ALL and ANY. "
-                "quick also 4-leaf chains on one species x subsequences of abc, 5-leaf chains on one species x {ac, bc, abc, b} with dup = 0, prescribed roots with a family no leaf carries, hgt = 0, and session "
+                "quick also 4-leaf chains on one species x subsequences of abc, 5-leaf chains on one species x {ac, bc, abc, b} with dup = 0, FOUR families (every tuple of subsequences of abcd on 3 leaves; {a, d, abd, acd, abcd} on the three 5-leaf shapes), one family on 4x2 and 4x4 leaves with transfers at 3-6 times the unit price, prescribed roots with a family no leaf carries, hgt = 0, and session "
                 "slices (one input object updated in place, with and without a prescribed root). Input presentation varies with the input: leaf "
                 "dictionaries in three orders, syntenies typed as lists / tuples, prefix-related multi-character family names, same-label ancestors. "
                 "Oracle: Bellman over (species, subsequence) for every compatible root order; base: LCA mapping fixed.",
@@ -42,7 +42,7 @@ CLAIMED = {
                 "thorough adds 4x<=3x2, 4x<=2x4 families, 5x<=2x2. Oracle searches EVERY admissible labelling (brute force <=4 leaves, "
                 "plus every 4-leaf object on 3 species leaves with one family; Bellman at 5), so the solver's restriction to the LCA/INHERIT labellings is itself decided on these slices. Session slice: one "
                 "input object per shape pair (<=3x<=3 leaves, 2 families) updated in place; retopology session: one root node object given every "
-                "object shape of 2..4 leaves in turn, every input of each shape solved on it.",
+                "object shape of 2..4 leaves in turn, every input of each shape solved on it. Transfer-price slices: 4x3 leaves with singleton families at hgt 2 / sloss 1-2, 4x4 leaves with one family at hgt 6.",
         "design_ref": "6 (C03), 4.2-4.4, 5",
         "note": "Trusted: refmodel/unordered.py (brute force <-> Bellman cross-validated). Coherent cost region only; "
                 "F-COHERENCE witnesses replayed from known_findings.json.",
@@ -64,7 +64,7 @@ CLAIMED = {
         "category": "exploration",
         "text": "Bounded-exhaustive comparison of the ALL result with the complete optimal set of the reference models, key for key, "
                 "and of ANY with membership in it, for thl/exh (quick P4x3, thorough P4x4 + 5x<=3) and the four labelled solvers "
-                "(quick O3x2x3, U3x3x3, U4x2x2, 5-leaf chains x 1 species x 3 families; thorough O3x3x3, O4x3x2, U4x3x2, U4x2x4, U5x2x2) on a tie-rich coherent cost menu.",
+                "(quick O3x2x3, U3x3x3, U4x2x2, 5-leaf chains x 1 species x 3 families; thorough O3x3x3, O4x3x2, U4x3x2, U4x2x4, U5x2x2) on a tie-rich coherent cost menu (free segmental losses included); quick also every tuple of subsequences of abcd (four families) on 3 object leaves.",
         "design_ref": "6 (C05)",
         "note": "Trusted: the reference models' optimal sets (brute force / Bellman, cross-validated). Coherent region only; "
                 "F-COHERENCE set witnesses replayed from known_findings.json.",
@@ -88,7 +88,7 @@ CLAIMED = {
                 "reconcile_lca's mapping = model LCA mapping, valid, and cheapest among ALL transfer-free valid mappings (enumerated by the model) "
                 "for all 36 (dup, loss) in {0..5}^2, unique when loss > 0; implementation cost = model cost. Operation histories: one species "
                 "tree and one LowestCommonAncestor object (named / unnamed ancestors) shared by every object tree of the bound, the leaf-mapping "
-                "dict updated in place through every assignment, every ordered pair of assignments on small inputs; the caller's own cost dict edited after the input was built (a cost sweep).",
+                "dict updated in place through every assignment, every ordered pair of assignments on small inputs; the caller's own cost dict edited after the input was built (a cost sweep); reconcile_thl at hgt = inf under ANY and ALL with losses at 1, 3 and 4 must return exactly the LCA reconciliation (<=4x<=4 leaves).",
         "design_ref": "6 (C07)",
         "note": "Trusted: refmodel/dtl.py. The comparison with thl at hgt=inf is C10's.",
         "technique": TECH_E2,
@@ -113,7 +113,7 @@ CLAIMED = {
                 "menu and thl / ext_spfs / base_spfs / superdtl / base_uspfs, the ALL result is compared with the result on every transformation of a "
                 "finite menu (single-node child swaps, mirror, 3 node renamings, 2 family renamings, outgroup on either side, repetition on the same "
                 "object and on a fresh one, scaling x2/x3, each unit cost +1); plus a fixed corpus solved in fresh interpreters under "
-                "PYTHONHASHSEED 0..3 with byte-identical canonical output. Further quick slices: child-order transformations on every 4-leaf labelled object over a species cherry (2 families); the input solved after a pass through its dictionary form under vectors with a zero or infinite unit cost. Further transformations: leaf dictionaries written in another order, "
+                "PYTHONHASHSEED 0..3 with byte-identical canonical output. Further quick slices: child-order transformations on every 4-leaf labelled object over a species cherry (2 families); the input solved after a pass through its dictionary form under vectors with a zero or infinite unit cost. Further transformations: every other algorithm of the package run first on the same input object, leaf dictionaries written in another order, "
                 "children swapped in place on the live trees with a new LCA structure, prices doubled in place on the same input object.",
         "design_ref": "6 (C09), 7",
         "note": "No oracle needed (metamorphic relations). Object-address-dependent iteration order is not controllable; results compared as sets.",
@@ -125,7 +125,7 @@ CLAIMED = {
                 "(quick O3x2x3; thorough O3x3x3, O4x3x2) and on every single-family labelling of the P-slices (quick P4x3; thorough P4x4, 5x<=3), "
                 "coherent cost menu (with hgt < dup and hgt = 0), both policies: ext <= base, unordered <= ordered, thl <= lca (= at hgt=inf), single family: ext_spfs = superdtl = thl and "
                 "base_spfs = base_uspfs = lca; plus thl <= lca on 3-leaf objects over 6-leaf species trees, thl = superdtl on 5-leaf single-family "
-                "inputs at hgt = 2*dup, 4- and 5-leaf chains on one species.",
+                "inputs at hgt = 2*dup, 4- and 5-leaf chains on one species; 4x3 leaves with singleton families at hgt 2 / sloss 1-2.",
         "design_ref": "6 (C10)",
         "note": "No oracle: compares the implementations' own cost() values (C06 validates those). Coherent cost region only.",
         "technique": "bounded-exhaustive enumeration of inputs x configurations with differential (cross-algorithm) oracle",
@@ -151,10 +151,10 @@ CLAIMED = {
                 "crosses them), with and without explicit leaf_object_species; `reconcile` and `draw` run in-process, the first cases of each shard "
                 "also as real subprocesses. Verdict on status, one JSON object per line, unique non-empty names with the reference pre-order "
                 "numbering, cost() of each parsed-back object = printed minimum, all contains any, draw accepts each object in both orientations, "
-                "status 1 + empty output without syntenies. Multifurcating input files (a polytomy in either tree, <=3x<=3 leaves, thorough 4-leaf "
+                "status 1 + not a single byte on stdout without syntenies. Multifurcating input files (a polytomy in either tree, <=3x<=3 leaves, thorough 4-leaf "
                 "objects with one ternary node) for ext_spfs / superdtl: binary output trees, input clades and their names kept, new ancestors numbered "
                 "by the reference pre-order rule, parse-back cost = printed minimum, all contains any, draw accepts. Cost options include an "
-                "optimum needing > 6 significant digits, a fraction and a zero unit cost; plain algorithms are also run on files that carry "
+                "optimum needing > 6 significant digits, a fraction, a zero unit cost and (plain algorithms only) a speciation dearer than a duplication plus two losses; plain algorithms are also run on files that carry "
                 "syntenies; species names may contain underscores; 5-leaf trees for the numbering order.",
         "design_ref": "6 (C12)",
         "note": "Trusted: the in-process driver (conformance-checked against subprocess runs each run), the stub TeX measurer, ete3's Newick parser.",
@@ -187,10 +187,10 @@ CLAIMED = {
     },
     "C15": {
         "category": "exploration",
-        "text": "Same reconciliations x every colouring of a menu (none, root, inner, every nested pair, leaf, two subtrees, three levels) with "
+        "text": "Same reconciliations x every colouring of a menu (none, root, inner, every nested pair, explicit black inside / around a colour, leaf, two subtrees, three levels) with "
                 "labelling / naming scheme (underscores, backslashes) / orientation rotating: scanner for balanced braces, single picture, terminated "
                 "\\path/\\node statements, colours defined before use; colour of every event node and loss marker (layout and text) = nearest coloured "
-                "ancestor-or-self; escaped names; synteny labels list the node's families, omitted iff equal to the parent's. Wrapper: all word lists "
+                "ancestor-or-self; escaped names; synteny labels list the node's families (also multi-character families whose lists concatenate to the same text), omitted iff equal to the parent's. Wrapper: all word lists "
                 "of <=5 (6) words over 4 (5) lengths x widths 1..30 and syntenies of <=12 families against greedy wrapping.",
         "design_ref": "6 (C15)",
         "note": "Family names contain no backslash (a doubled backslash in a label is a TeX line break and would be ambiguous to un-wrap).",
@@ -201,7 +201,7 @@ CLAIMED = {
         "text": "Explicit-state BFS over all reachable states of real Entry objects and table cells (1-3 dimensional, "
                 "Dict and List dimensions incl. two leading List dimensions, fresh and pre-initialised, with a cell handle kept from before the first write) under every batch of <=2 (quick) / <=3 (thorough) "
                 "candidates over {0,1,2}x{None,a,b}, for the 2x3 policy pairs, with the reference (optimum, optimal-tag set) "
-                "run in lock-step; every pair of reachable entry states combined under 7 combinators (three with tag-dependent values); all histories of "
+                "run in lock-step; every pair of reachable entry states combined under 7 combinators (three with tag-dependent values), each pair also with the left / right / both operands living in table cells; all histories of "
                 "depth 4 (quick) / 5 (thorough) in every batch split replayed on fresh objects. Exhaustive within those bounds.",
         "design_ref": "6 (C16), 3 (E1 explorer)",
         "note": "Trusted: CPython, the `infinity` package ordering, refmodel/dpentry.py. Values outside {0,1,2} and falsy tags are not explored.",
@@ -221,7 +221,7 @@ CLAIMED = {
         "category": "exploration",
         "text": "Exhaustive over all (child != 0, parent) mask pairs up to 11 (quick) / 13 (thorough) bits x both end modes against an independent "
                 "run counter, and all sequences of distinct elements up to length 11 / 13 with all their subsequences (six element alphabets: ints, strings, "
-                "unhashable lists, elements equal under str() but distinct under ==, elements with one common hash and text) for the mask <-> subsequence round trip; one mutable parent sequence rearranged in place through every permutation (<= 6 / 7 elements).",
+                "unhashable lists, elements equal under str() but distinct under ==, elements with one common hash and text) for the mask <-> subsequence round trip, also with subsequence and parent given as different kinds of sequence (tuple / list / str / range); one mutable parent sequence rearranged in place through every permutation (<= 6 / 7 elements).",
         "design_ref": "6 (C18)",
         "note": "Trusted: refmodel/graphs.py:lost_runs_mask.",
         "technique": TECH_E2,
@@ -229,7 +229,7 @@ CLAIMED = {
     "C19": {
         "category": "exploration",
         "text": "Exhaustive over all 66 067 digraphs on <= 4 vertices (self-loops included), loop-free digraphs on 5 vertices (<= 5 edges quick, "
-                "all 2^20 thorough) and the precedence graphs the ordered solver builds for every tuple of <= 3 (4) leaf syntenies: toposort_all "
+                "all 2^20 thorough), loop-free digraphs on 6-7 vertices with <= 2 (3) edges (up to 5040 orderings each) and the precedence graphs the ordered solver builds for every tuple of <= 3 (4) leaf syntenies: toposort_all "
                 "= permutation filter as a multiset, toposort returns a member iff one exists; the null graph; one graph object (shared successor "
                 "sets) used by toposort, toposort_all and toposort again without being modified.",
         "design_ref": "6 (C19)",
